@@ -1,6 +1,8 @@
 pub mod c01;
 pub mod c05;
 pub mod c06;
+pub mod c07;
+pub mod c08;
 pub mod util;
 
 use crate::engine::Tier;
@@ -11,6 +13,8 @@ pub fn dispatch(id: &str, tier: Tier, seed: u64) -> Option<i32> {
         "C18" => c01::run("C18", tier, seed),
         "C05" => c05::run(tier, seed),
         "C06" => c06::run(tier, seed),
+        "C07" => c07::run(tier, seed),
+        "C08" => c08::run(tier, seed),
         _ => return None,
     })
 }
